@@ -144,7 +144,7 @@ def exchange_flows(ctx, rng, n):
     try:
         for i in range(n):
             jwt = (i % 2 == 1)
-            rs = sess.RealSession(oidc=False, jwt_access=jwt)
+            rs = sess.RealSession(oidc=False, jwt_access=jwt, empty3=(i % 3 == 2))
             try:
                 hist = []
                 client = rng.choice(sess.CLIENTS)
@@ -249,7 +249,7 @@ def exchange_flows(ctx, rng, n):
 
 def client_credentials_flows(ctx, rng, n):
     for i in range(n):
-        rs = sess.RealSession(oidc=False, jwt_access=(i % 2 == 1))
+        rs = sess.RealSession(oidc=False, jwt_access=(i % 2 == 1), empty3=(i % 3 == 2))
         try:
             client = rng.choice(sess.CLIENTS)
             want = rng.sample(sess.SCOPES, rng.randint(0, 5))
